@@ -58,7 +58,8 @@ type model struct {
 
 	flying       int64
 	avgLo, avgHi float64
-	dropped      bool          // a shedding episode may be in progress
+	dropped      bool          // a shedding episode is in progress (ends at an Allow with the CPU below the threshold >= 1 s after the last overload)
+	dropMay      bool          // same, ending only > 1 s after (at exactly 1 s the statement leaves both answers open)
 	everOver     bool          // some Allow saw (or may have seen) the CPU at/above the threshold
 	lastOver     time.Duration // time of the last such Allow
 	uncertain    bool          // some CPU verdict was unknown: only statement-level clauses from here on
@@ -101,6 +102,19 @@ func (m *model) hot(t time.Duration) bool {
 	return m.dropped && m.everOver && t-m.lastOver < coolOff
 }
 
+func (m *model) hotMay(t time.Duration) bool {
+	return m.dropMay && m.everOver && t-m.lastOver <= coolOff
+}
+
+func (m *model) noteBelow(t time.Duration) {
+	if m.dropped && m.everOver && !m.hot(t) {
+		m.dropped = false
+	}
+	if m.dropMay && m.everOver && !m.hotMay(t) {
+		m.dropMay = false
+	}
+}
+
 func factor(th, cpu int64) float64 {
 	f := (1000 - float64(cpu)) / (1000 - float64(th))
 	return math.Min(1, math.Max(lowBound, f))
@@ -110,7 +124,8 @@ type pre struct {
 	T            time.Duration
 	OverKnown    bool
 	Over         bool // meaningful if OverKnown
-	Hot          bool // possible-hot (exact when !Uncertain)
+	Hot          bool // surely hot (exact when !Uncertain)
+	HotMay       bool // possibly hot
 	Uncertain    bool
 	Flying       int64
 	AvgLo, AvgHi float64
@@ -122,7 +137,7 @@ type pre struct {
 
 func (m *model) preOf(t time.Duration) pre {
 	lo, hi := m.capacity(t)
-	return pre{T: t, Hot: m.hot(t), Uncertain: m.uncertain, Flying: m.flying, AvgLo: m.avgLo, AvgHi: m.avgHi, CapLo: lo, CapHi: hi}
+	return pre{T: t, Hot: m.hot(t), HotMay: m.hotMay(t), Uncertain: m.uncertain, Flying: m.flying, AvgLo: m.avgLo, AvgHi: m.avgHi, CapLo: lo, CapHi: hi}
 }
 
 type finding struct{ key, what string }
@@ -131,7 +146,7 @@ func judge(p pre, shed bool) []finding {
 	var out []finding
 	fl := float64(p.Flying)
 	if shed {
-		if p.OverKnown && !p.Over && !p.Hot {
+		if p.OverKnown && !p.Over && !p.HotMay {
 			out = append(out, finding{"C02/shed-without-overload/cpu-below-threshold-and-not-hot",
 				fmt.Sprintf("Allow shed although stat.CpuUsage()=%d was below the threshold before and after the call and no possibly-overloaded Allow of a shedding episode lies within the preceding second", p.Cpu)})
 		}
@@ -155,7 +170,7 @@ func judge(p pre, shed bool) []finding {
 			if !p.Over {
 				trig = "hot"
 			}
-			may := (p.Over || p.Hot) && p.AvgHi > limLo && fl > limLo
+			may := (p.Over || p.HotMay) && p.AvgHi > limLo && fl > limLo
 			must := (p.Over || p.Hot) && p.AvgLo > limHi && fl > limHi
 			if shed && !may {
 				out = append(out, finding{"C02/mechanism/shed-below-factor-capacity/" + trig,
@@ -177,11 +192,11 @@ func (m *model) applyAllow(p pre, shed bool) {
 		m.lastOver, m.everOver = p.T, true
 	case p.Over:
 		m.lastOver, m.everOver = p.T, true
-	case m.dropped && m.everOver && !p.Hot:
-		m.dropped = false
+	default:
+		m.noteBelow(p.T)
 	}
 	if shed {
-		m.dropped = true
+		m.dropped, m.dropMay = true, true
 		m.drops++
 		return
 	}
